@@ -44,6 +44,11 @@ using std::c12_visible_abs;
 
 using verif::Case;
 
+// Defaults for this binary only (ASAN_OPTIONS from the driver still wins for the options it names): with the stock 256 MB
+// quarantine and 30-frame allocation stacks a rapidcheck process grows by ~4 KB per case (0.9 GB after 200k cases, measured);
+// with these it stays near 50 MB and runs twice as fast.  Error reports keep their full stack.
+extern "C" const char *__asan_default_options() { return "quarantine_size_mb=16:malloc_context_size=3"; }
+
 const verif::Info verif_info = {
     "C12", 64,
     "print direction: every short and unsigned short value (2 x 65536) x bases 2..36 x both letter cases enumerated; for int, long, long long and "
